@@ -24,6 +24,11 @@ More streams (one protocol line per case):
   effnew / effeq / effcall   LinkParameterEffector.__init__ / __eq__ / __call__ called directly
   table                      add_interaction, add_or_replace_interaction, remove_interaction,
                              remove_matching_interaction, get_interaction called directly
+  text (harness/c05_text.py) links WRITTEN as force-field text (link-wide attributes, per-atom attributes
+                             that repeat / override them, prefixes and explicit orders, !-sections, #meta, [ edges ],
+                             [ non-edges ], [ patterns ], [ molmeta ], macros): read_ff + DoLinks against the model
+                             fed with the parsed LINES (Lean buildLink / effectiveAttrs) and oracles on what the
+                             text DECLARES; one-line component stream for the precedence rule at every site
 The apply stream also compares the SEQUENCE of table calls the real DoLinks makes with the model's event
 list (lean/VermouthModel/C05_Run.lean), the molecule's log entries, the kind of the first exception,
 and the model's verdict "no later step interferes with this addition" with the final table.
@@ -45,11 +50,21 @@ chk.extra['rule'] = ('random links over the documented features (order prefixes 
                      'an integer lattice (exact distances) / off it / without coordinates, log entries, meta=None, three '
                      'or more orders of which one is invalid; effector streams (init / eq / call on random matches) are '
                      'non-trivial when the outcome is a value or a specific exception; table streams when at least one '
-                     'API call was made; distinct = distinct protocol line')
+                     'API call was made; TEXT stream: whole force-field texts (1-5 [ link ] sections derived from the molecule: '
+                     'link-wide attributes incl. choices / not() / flags, [ atoms ] lines and interaction atoms that repeat or '
+                     'override link-wide keys, prefix / explicit / both spellings of the order, #meta and line meta, !-sections, '
+                     '[ edges ] / edges implied by interactions / edge:false, non-edge partners that state their own value for a '
+                     'link-wide key (written after a real neighbour or made to differ from it), patterns, molmeta, features, '
+                     'macros, the same link twice; 7% of the files carry one fault the reader must reject) parsed by the real '
+                     'read_ff and applied by the real DoLinks; non-trivial when >= 1 placement was applied or the file is rejected; '
+                     'one-line component cases are non-trivial when the line writes a key the link also sets; '
+                     'distinct = distinct protocol line')
 chk.trusted.append('harness/c05.py: encoding of molecules and links read off the real objects, canonicalisation, '
                    'brute-force Python oracle (independent statement of the link conditions), numeric geometry oracle, '
-                   'exact-integer distance oracle on the lattice, recorder wrapping the Molecule table methods')
-chk.lean(['VermouthProps.C05', 'VermouthProps.C05_Run', 'VermouthProps.C05_Eff'], 'driver_c05')
+                   'exact-integer distance oracle on the lattice, recorder wrapping the Molecule table methods; harness/c05_text.py: '
+                   'generator of force-field text from a description of what each link declares, rendering of that description '
+                   'as text / as parsed lines / as Link objects built through the Python API (oracle side)')
+chk.lean(['VermouthProps.C05', 'VermouthProps.C05_Run', 'VermouthProps.C05_Eff', 'VermouthProps.C05_Text'], 'driver_c05')
 
 if os.environ.get('VERIF_C05_DEBUG'):
     _case, _seen = chk.case, []
@@ -612,10 +627,11 @@ class CallRecorder:
         Molecule.remove_matching_interaction, Molecule.add_or_replace_interaction, Molecule.remove_nodes_from = self.orig
 
 
-def run_links(mol):
+def run_links(mol, snap_fn=None):
     """DoLinks.run_molecule on `mol` (modified in place), recording per link the placements the
-    code consumed and the placements on the molecule as it was when the link started; the error is
-    'match' when match_link raised, else the name of the exception"""
+    code consumed and the placements on the molecule as it was when the link started (snap_fn(snapshot,
+    link index): computed by the caller instead, e.g. from what a force-field text declares); the error
+    is 'match' when match_link raised, else the name of the exception"""
     used, snaps = [], []
     run_links.states = states = []
     run_links.owner = owner = {}
@@ -626,10 +642,13 @@ def run_links(mol):
     def wrapper(molecule, link):
         states.append(table_state(molecule))
         snap_mol = clone(molecule)
-        try:
-            snaps.append(list(orig(snap_mol, link)))
-        except Exception:
-            snaps.append(None)
+        if snap_fn is not None:
+            snaps.append(snap_fn(snap_mol, len(snaps)))
+        else:
+            try:
+                snaps.append(list(orig(snap_mol, link)))
+            except Exception:
+                snaps.append(None)
         rec = []
         used.append(rec)
         names = list(link.nodes)
@@ -689,12 +708,14 @@ def model_param(p, positions):
     return unlit_param(p)
 
 
-def model_state(s, positions):
+def model_state(s, positions, d=None):
     """decode the model's answer -> (state | error string, maybe, events); `maybe`: some match_link of the
-    run may also have raised (dictionary order), events: the model's event list with its verdicts"""
-    if s in (None, 'bad-op', 'bad-line', 'driver-died'):
-        return s, False, None
-    d = dec(s)
+    run may also have raised (dictionary order), events: the model's event list with its verdicts
+    (d: the answer already decoded)"""
+    if d is None:
+        if s in (None, 'bad-op', 'bad-line', 'driver-died'):
+            return s, False, None
+        d = dec(s)
     maybe = bool(d[0])
     if d[1] == 'error':
         return 'error:' + str(d[2]), maybe, None
@@ -2510,6 +2531,8 @@ link_stream()
 order_cases()
 effector_cases()
 table_cases()
+import c05_text
+c05_text.run(chk, globals())
 if os.environ.get('VERIF_C05_DEBUG'):
     with open(os.environ['VERIF_C05_DEBUG'], 'w') as f_:
         json.dump({'failures': chk.failures, 'disagreements': chk.disagreements, 'corpus': _seen}, f_, default=repr)
